@@ -115,7 +115,10 @@ class SSCChart(BaseChart):
             if value is self.notes:
                 notes_key = key
                 continue
-            if key in BaseSimfile.MULTI_VALUE_PROPERTIES:
+            if value is None:
+                # key-only property (e.g. "#CREDIT;")
+                param = MSDParameter((key,))
+            elif key in BaseSimfile.MULTI_VALUE_PROPERTIES:
                 param = MSDParameter((key, *value.split(":")))
             else:
                 param = MSDParameter((key, value))
